@@ -319,7 +319,7 @@ class Emitter:
             if n in self.allocas:
                 kind, at = self.allocas[n]
                 if kind == "bytes":
-                    return "Ptr{%s, 0}" % san(n)
+                    return "c_pblk(%s)" % san(n)
                 return "&" + san(n)
             if n in self.casts:
                 raise Unsupported("use of a reinterpreted pointer %" + n)
@@ -491,16 +491,12 @@ class Emitter:
             if base_t.kind == "int" and base_t.bits == 8 and len(idx) == 1:
                 p = self.val(ptok, pt)
                 i = self.as_i64(idx[0])
-                self.declare("ptmp", "Ptr")
-                self.emit("ptmp = " + p)
-                self.setv(dest, T("ptr", elem=base_t), "Ptr{ptmp.B, ptmp.O + %s}" % i)
+                self.setv(dest, T("ptr", elem=base_t), "c_padd(%s, %s)" % (p, i))
                 return
             if base_t.kind == "array" and base_t.elem.kind == "int" and base_t.elem.bits == 8 and len(idx) == 2 and idx[0][1] == "0":
                 p = self.val(ptok, pt)
                 i = self.as_i64(idx[1])
-                self.declare("ptmp", "Ptr")
-                self.emit("ptmp = " + p)
-                self.setv(dest, T("ptr", elem=base_t.elem), "Ptr{ptmp.B, ptmp.O + %s}" % i)
+                self.setv(dest, T("ptr", elem=base_t.elem), "c_padd(%s, %s)" % (p, i))
                 return
             if base_t.kind == "named" and len(idx) == 2 and idx[0][1] == "0":
                 sn = struct_go_name(base_t.name)
@@ -703,6 +699,8 @@ type Ptr struct {
 }
 
 // ---- primitives with contracts in /verif/contracts/trusted/c_runtime.spec (never executed) ----
+func c_padd(p Ptr, d int64) Ptr         { return Ptr{p.B, p.O + d} }
+func c_pblk(b *Blk) Ptr                { return Ptr{b, 0} }
 func c_alloca(n int64) *Blk            { panic("extern") }
 func c_ld8(p Ptr) int8                 { panic("extern") }
 func c_st8(p Ptr, v int8)              { panic("extern") }
